@@ -20,7 +20,10 @@ RULE = ("histories of push / push(None) / extend|update / pull(emptive or not) /
         "as one kind before a reopen and as the other after it; the reference is one independent FIFO / ordered set per "
         "(kind, key) and the entry counts of the whole drqs / dsqs sub-dbs must equal the reference totals; values from an 11-element "
         "domain of Bag/IceBag instances with duplicates (and, in a separate stream, values equal in Python but "
-        "serialised differently: 1 / 1.0 / True); between any two ops the store may be closed and reopened with fresh "
+        "serialised differently: 1 / 1.0 / True); the store is persistent or (40%) TEMPORARY (temp=True) and is cycled in 6 "
+        "ways (new Subery object; close()+reopen(reuse=True); reopen(reuse=True); close()+reopen(); reopen(); reopen(clear=True)) "
+        "- the content must come back exactly where the unchanged tree keeps the directory and must be gone otherwise; "
+        "between any two ops the store may be closed and reopened with fresh "
         "queue objects injected through Hold (crash point), or a new preloaded queue object injected at a live key; "
         "every queue enters its Hold through one of 16 entry points (item / attribute assignment, update(mapping), "
         "update(list|tuple of pairs), update(zip|generator|iterator|map), update(k=q), update({}, k=q), Hold(mapping|list|"
@@ -49,6 +52,20 @@ def _bad(kind, in_batch=True):
     if v is None and not in_batch:
         v = 7.5                      # push(None) is the accepted no-op, not a rejection
     return dict(v) if isinstance(v, dict) else v
+
+
+HOWS = ["newobj", "close_reopen_reuse", "reopen_reuse", "close_reopen", "reopen", "close_reopen_clear"]
+
+
+def _kept(case, o):
+    """does a reopen event keep the durable content (what the unchanged tree does)?  A persistent store keeps its directory
+    unless clear=True; a temporary store only when the SAME object is reopened with reuse=True."""
+    how = o[3] if len(o) > 3 else "newobj"
+    if how == "close_reopen_clear":
+        return False
+    if case.get("temp"):
+        return how in ("close_reopen_reuse", "reopen_reuse")
+    return True
 
 
 def _slots(case):
@@ -147,6 +164,19 @@ def directed():
     out.append({"kind": "mixed", "via0": 12, "ops": [
         ["extend", 4, [0, 1, 2]], ["reopen", {}, 7], ["pull", 5, True], ["push", 5, 0], ["reopen", {}],
         ["pull", 5, True], ["pull", 4, True], ["remove", 5, 0], ["pull", 4, False]]})
+    # close / reopen cycles of a persistent and of a TEMPORARY store in every way; the content must come back exactly where the
+    # store keeps its directory (persistent: unless clear=True; temporary: same object reopened with reuse=True)
+    for temp in (False, True):
+        for kind in ("durq", "dusq"):
+            ops = []
+            for n, how in enumerate(HOWS):
+                ops += [["push", 0, n % 3], ["extend", 1, [1, 2]], ["reopen", {}, [0, 0, 0], how], ["pull", 0, True],
+                        ["push", 1, 0], ["pull", 1, True]]
+            out.append({"kind": kind, "temp": temp, "ops": ops})
+    out.append({"kind": "mixed", "temp": True, "ops": [["push", 0, 0], ["push", 1, 1], ["reopen", {}, 5, "close_reopen_reuse"],
+                                                       ["pull", 0, True], ["push", 1, 2], ["reopen", {}, 12, "reopen_reuse"],
+                                                       ["pull", 1, True], ["pull", 1, True], ["reopen", {"0": [3]}, 3, "reopen"],
+                                                       ["pull", 0, True], ["pull", 1, True]]})
     # the caller reuses ONE scratch Bag: sets its value and pushes it again and again; changes objects it handed in through
     # push / extend|update / the constructor, objects it got from iteration and from pull
     for kind in ("durq", "dusq"):
@@ -220,10 +250,10 @@ def _gen(rng, kind, dom, n):
             pre = {}
             if rng.random() < 0.3:
                 pre[str(rng.choice(active))] = [rng.choice(dom) for _ in range(rng.choice([1, 2, 3]))]
-            ops.append(["reopen", pre, _rand_via(rng, nvia)])
+            ops.append(["reopen", pre, _rand_via(rng, nvia), rng.choice(HOWS + ["newobj", "close_reopen_reuse", "reopen_reuse"])])
         else:
             ops.append(["reinject", q, [rng.choice(dom) for _ in range(rng.choice([0, 1, 2]))], rng.randrange(len(VIA))])
-    return {"kind": ckind, "ops": ops, "via0": _rand_via(rng, nvia)}
+    return {"kind": ckind, "ops": ops, "via0": _rand_via(rng, nvia), "temp": rng.random() < 0.4}
 
 
 def _rand_via(rng, n=3):
@@ -266,6 +296,7 @@ class _World:
     def __init__(self, case):
         _N[0] += 1
         self.slots = _slots(case)
+        self.temp = bool(case.get("temp"))
         self.head = str(scratch_dir() / f"c23-{_N[0]}")
         self.sub = None
         self.qs = {}
@@ -279,10 +310,27 @@ class _World:
             self.handed[sl].append(o)
         return o
 
-    def open(self):
+    def open(self, how="newobj"):
+        """first opening, or a close/reopen cycle of the store (how = one of HOWS)"""
         from hio.base.during import Subery
         from hio.base.hier.holding import Hold
-        self.sub = Subery(name="c23", headDirPath=self.head, reopen=True)
+        if self.sub is None or how == "newobj":
+            if self.sub is not None:
+                self.sub.close()
+            kw = dict(name=f"c23x{_N[0]}", temp=True) if self.temp else dict(name="c23", headDirPath=self.head)
+            self.sub = Subery(reopen=True, **kw)
+        elif how == "close_reopen_reuse":
+            self.sub.close(); self.sub.reopen(reuse=True)
+        elif how == "reopen_reuse":
+            self.sub.reopen(reuse=True)
+        elif how == "close_reopen":
+            self.sub.close(); self.sub.reopen()
+        elif how == "reopen":
+            self.sub.reopen()
+        elif how == "close_reopen_clear":
+            self.sub.close(); self.sub.reopen(clear=True, reuse=True)
+        else:
+            raise ValueError(how)
         self.holds = {}
         for kind in ("durq", "dusq"):
             self.holds[kind] = Hold()
@@ -415,8 +463,11 @@ def run_impl(case):
         for o in case["ops"]:
             name = o[0]
             if name == "reopen":
-                w.close()
-                w.open()
+                w.open(o[3] if len(o) > 3 else "newobj")
+                if not _kept(case, o):       # the directory was not kept: nothing durable may be left, old objects are dead
+                    for sl in range(len(w.slots)):
+                        w.qs[sl] = []
+                        obs.append(w.snap(sl, ["ok", ["opt", None]]))
                 for q, ok in _enter_all(w, o[2] if len(o) > 2 else [0, 0, 0], o[1]):
                     obs.append(w.snap(q, ["ok", ["bool", ok]]))
                 continue
@@ -514,6 +565,8 @@ def _events(case):
     ev = [(q, ["reopen1", []]) for q in range(n)]
     for o in _resolve(case):
         if o[0] == "reopen":
+            if not _kept(case, o):
+                ev += [(q, ["wipe"]) for q in range(n)]
             ev += [(q, ["reopen1", o[1].get(str(q), [])]) for q in range(n)]
         elif o[0] == "reinject":
             ev.append((o[1], ["reopen1", o[2]]))
@@ -581,6 +634,9 @@ def oracle(case, obs):
                 want = ["ok", ["bool", False]]
         elif name == "sync":
             want = ["ok", ["bool", True]] if o[1] else ["ok", ["opt", None]]
+        elif name == "wipe":
+            # the store's directory was not kept across this reopen: the durable content is gone
+            want = ["ok", ["opt", None]]; del l[:]
         elif name == "mutate":
             # the caller changing its own object is not an operation on the container: nothing changes
             want = ["ok", ["opt", None]]
@@ -671,6 +727,8 @@ def _coq_ev(ser, q, o, via=0):
         t = f"(Durq.ExtendBad {_vals(ser, o[1])} {_vals(ser, o[2])})"
     elif name == "rawputbad":
         t = f"(Durq.RawPutBad {_vals(ser, o[1])} {_vals(ser, o[2])})"
+    elif name == "wipe":
+        t = "Durq.Wiped"
     elif name == "mutate":
         t = "Durq.CallerMutates"
     elif name == "pushbad":
